@@ -330,6 +330,109 @@ fn r_vscond(out: &mut Out, term: &str, n: usize, bits: &[usize], shots: usize, m
         &r.unwrap_or("panic".into()));
 }
 
+/// an n-qubit `VectorState` of `ncols` shots split into `ncols` ranges (one shot each), built through the
+/// public API: an alternating mask makes every shot its own run, a second random mask diversifies the columns
+fn split_state(n: usize, ncols: usize, rng: &mut SplitMix64) -> VectorState
+{
+    let mut st = prepare(n, ncols, rng);
+    let alt: Vec<bool> = (0..ncols).map(|i| i % 2 == 0).collect();
+    st.apply_conditional_gate(&alt, &q1tsim::gates::H::new(), &[n - 1]).unwrap();
+    let m2: Vec<bool> = (0..ncols).map(|_| rng.coin()).collect();
+    st.apply_conditional_gate(&m2, &q1tsim::gates::RY::new((rng.unit() - 0.5) * 5.0), &[0]).unwrap();
+    let m3: Vec<bool> = (0..ncols).map(|i| i % 3 == 0).collect();
+    st.apply_conditional_gate(&m3, &q1tsim::gates::RZ::new((rng.unit() - 0.5) * 5.0), &[n - 1]).unwrap();
+    st
+}
+
+/// `VectorState::apply_gate` (kind "vsapplym") / `apply_unary_gate_all` (kind "vsunarym") on a state of many columns
+fn r_vsmulti(out: &mut Out, unary: bool, term: &str, n: usize, bits: &[usize], ncols: usize, rng: &mut SplitMix64)
+{
+    let mut st = split_state(n, ncols, rng);
+    let (c0, s0) = snapshot(&st);
+    let (t, b2) = (term.to_string(), bits.to_vec());
+    let r = catch(std::panic::AssertUnwindSafe(move || {
+        let g = mk(&t);
+        let res = if unary { st.apply_unary_gate_all(&g) } else { st.apply_gate(&g, &b2) };
+        match res
+        {
+            Ok(()) => { let (_, s1) = snapshot(&st); format!("ok {}", show(&s1.concat())) },
+            Err(q1tsim::error::Error::InvalidNrBits(a, b, _)) => format!("err nrbits {} {}", a, b),
+            Err(e) => format!("err other {:?}", e)
+        }
+    }));
+    let req = if unary { format!("vsunarym {} {} | {} | {}", n, c0.len(), term, show(&s0.concat())) }
+        else { format!("vsapplym {} {} {} | {} | {}", n, c0.len(), join(bits), term, show(&s0.concat())) };
+    out.case(&req, &r.unwrap_or("panic".into()));
+}
+
+/// states holding many distinct columns (more than one panel of 64, not a multiple of 64)
+fn many_columns(out: &mut Out, rng: &mut SplitMix64)
+{
+    let th = thorough();
+    let a = |rng: &mut SplitMix64| fbits(gate::gen_angle(rng));
+    for &ncols in if th { &[63usize, 64, 65, 100, 128, 129, 200, 257][..] } else { &[65usize, 100, 129, 200][..] }
+    {
+        for n in 1..=3usize
+        {
+            let mut terms: Vec<(String, usize)> = vec![("H".into(), 1), ("Y".into(), 1), (format!("RX {}", a(rng)), 1),
+                (format!("U3 {} {} {}", a(rng), a(rng), a(rng)), 1), (format!("U1 {}", a(rng)), 1),
+                (format!("Loop l 3 b 1 2 T 1 0 RY {} 1 0", a(rng)), 1), (format!("Comp g 1 2 H 1 0 S 1 0"), 1)];
+            if n >= 2
+            {
+                terms.extend(vec![("CX".into(), 2), ("Swap".into(), 2), (format!("CRZ {}", a(rng)), 2), (format!("C RY {}", a(rng)), 2),
+                    (format!("Kron H RX {}", a(rng)), 2), (format!("Comp g 2 2 H 1 1 CX 2 1 0"), 2)]);
+            }
+            if n >= 3 { terms.extend(vec![("CCX".into(), 3), (format!("CCRY {}", a(rng)), 3), (format!("Kron CX U1 {}", a(rng)), 3)]); }
+            if th { for k in 1..=n { terms.push((gate::gen_term(k, 2, rng), k)); } }
+            let terms = if th { terms } else { sample(terms, 6, rng) };
+            for (term, k) in terms
+            {
+                for bits in sample(tuples(n, k), if th { 3 } else { 1 }, rng)
+                {
+                    r_vsmulti(out, false, &term, n, &bits, ncols, rng);
+                    let pre: Vec<bool> = (0..ncols).map(|i| i % 2 == 1).collect();
+                    let mixed: Vec<bool> = (0..ncols).map(|_| rng.coin()).collect();
+                    r_vscond(out, &term, n, &bits, ncols, &mixed, Some(&pre), rng);
+                    if th { let all_true = vec![true; ncols]; r_vscond(out, &term, n, &bits, ncols, &all_true, Some(&pre), rng); }
+                }
+                if k == 1 { r_vsmulti(out, true, &term, n, &[], ncols, rng); }
+            }
+            // arity mismatch on a wide state is still the error
+            r_vsmulti(out, false, "CX", n, &[0], ncols, rng);
+            if n >= 2 { r_vsmulti(out, true, "CX", n, &[], ncols, rng); }
+        }
+    }
+}
+
+/// loops with many iterations (more than any small-power shortcut), alone and under every combinator
+fn long_loops(out: &mut Out, nmax: usize, rng: &mut SplitMix64)
+{
+    let th = thorough();
+    let a = |rng: &mut SplitMix64| fbits(gate::gen_angle(rng));
+    for &it in if th { &[15usize, 16, 17, 20, 33, 64, 100][..] } else { &[17usize, 20, 33, 64][..] }
+    {
+        let l1 = format!("Loop l {} b 1 2 RX {} 1 0 T 1 0", it, a(rng));
+        let l2 = format!("Loop l {} b 2 2 CX 2 0 1 RY {} 1 1", it, a(rng));
+        let terms: Vec<(String, usize)> = vec![
+            (l1.clone(), 1), (l2.clone(), 2),
+            (format!("C {}", l1), 2),
+            (format!("Comp g 2 2 {} 1 1 H 1 0", l1), 2),
+            (format!("Comp g 3 2 {} 2 2 0 S 1 1", l2), 3),
+            (format!("Kron {} X", l1), 2),
+            (format!("Kron H {}", l1), 2),
+            (format!("Loop o 2 c 2 1 {} 1 1", l1), 2)];
+        for (term, k) in terms
+        {
+            r_matrix(out, &term);
+            leading(out, &term, k, false, rng);
+            for n in k..=nmax.min(k + 2)
+            {
+                for bits in sample(tuples(n, k), if th { 4 } else { 2 }, rng) { placed(out, &term, n, &bits, 2, rng); }
+            }
+        }
+    }
+}
+
 fn r_bitperm(out: &mut Out, n: usize, bits: &[usize])
 {
     let b2 = bits.to_vec();
@@ -585,6 +688,9 @@ fn main()
             }
         }
     }
+
+    many_columns(&mut out, &mut rng);
+    long_loops(&mut out, nmax_all, &mut rng);
 
     malformed(&mut out, &mut rng);
     let n = out.finish();
